@@ -106,11 +106,27 @@ def lean_banned_hits(modules):
     return hits
 
 
+def pregen(cfg):
+    """Regenerate Lean fact files from /repo's current working tree (translator part of the tie)."""
+    msgs = []
+    for cmd in cfg.get("pregen", []):
+        cmd = [c.replace("{repo}", REPO).replace("{lean}", LEAN).replace("{verif}", VERIF) for c in cmd]
+        rc, out = run(cmd, cwd=os.path.join(VERIF, "extract"), env=GOENV, timeout=300)
+        if rc != 0:
+            msgs.append("extractor failed: " + " ".join(cmd) + "\n" + out[-1500:])
+    return msgs
+
+
 def build_lean(prop):
     """Returns dict(ok, obligations, discharged, failed=[...], axioms={...}, log)."""
     cfg = PROPS[prop]
     res = dict(ok=True, failed=[], axioms={}, log="")
     with Lock("lake"):
+        gen_msgs = pregen(cfg)
+        if gen_msgs:
+            res["ok"] = False
+            res["failed"] += gen_msgs
+            res["log"] += "\n".join(gen_msgs)
         # 1. the driver (depends on Model only; must build even if a proof breaks)
         rc, out = run(["lake", "build", cfg["driver"]], cwd=LEAN)
         if rc != 0:
@@ -121,7 +137,7 @@ def build_lean(prop):
             return res
         thms = []
         # obligations: every theorem of the property modules and of the lemma modules they rest on
-        for mod in [m for m in lean_closure(cfg["props"]) if m.startswith("Hostd.Props.") or m.startswith("Hostd.Lemmas.")]:
+        for mod in [m for m in lean_closure(cfg["props"]) if m.startswith("Hostd.Props.") or m.startswith("Hostd.Lemmas.") or m.startswith("Hostd.Gen.")]:
             thms += [(mod, t) for t in lean_theorems(mod)]
         res["obligations"] = len(thms)
         rc, out = run(["lake", "build"] + cfg["props"], cwd=LEAN)
@@ -467,7 +483,8 @@ def main(argv):
                 known_hits.append(sig)
                 print(f"KNOWN-FINDING: property={prop} {known_sigs[sig]['what']} [{sig}] ({len(occ)} occurrences)")
                 continue
-            shr, repro = R.shrink(binpath, hist, f)
+            # shrinking re-runs the harness many times: do it for the first few distinct signatures only
+            shr, repro = R.shrink(binpath, hist, f) if nviol < int(os.environ.get("VERIF_SHRINK_MAX", "3")) else (hist, None)
             nviol += 1
             rp = os.path.join(VERIF, "replays", f"{prop}-{seed}-{nviol}.json")
             json.dump(dict(property=prop, engine=R.engine, seed=seed, tier=tier, signature=sig, flag=f["text"],
